@@ -512,6 +512,55 @@ def determinism_harness(e):
     return scenario
 
 
+_MI3: dict[str, Any] = {}
+
+
+def mi_harness(e):
+    """Classes with two node bases and an empty body (the base class docstring allows multiple
+    inheritance for non-slotted classes), whichever class of the family was used first: the id covers
+    the direct children of EVERY inherited child field, and detach() reaches all of them."""
+    from models import classgen as G
+    from pyoak.node import NODE_REGISTRY, ASTNode
+
+    reset_all()
+    first = e.pick(["MNamed", "MBodied", "MFunc", "MEmpty"], "class_used_first")
+    if _MI3.get("first") != first:
+        tag, C = G.make_mi_classes()
+        _MI3.clear()
+        _MI3.update(first=first, C=C)
+    C = _MI3["C"]
+    for k in [first] + sorted(C):
+        C[k]()
+    NODE_REGISTRY.clear()
+    F = C[e.pick(["MFunc", "MRich", "MEmpty"], "class")]
+    seq = "body" if "body" in F.__dataclass_fields__ else ("extras" if "extras" in F.__dataclass_fields__ else None)
+    x = VLeaf(v=1)
+    r1, r2 = VLeaf(v=2), VLeaf(v=3)
+    kw1 = {"name_kid": x, **({seq: (r1,)} if seq else {"label": 1})}
+    kw2 = {"name_kid": x, **({seq: (r2,)} if seq else {"label": 2})}
+    alone = F(**kw2)
+    id_alone = alone.id
+    alone.detach_self()
+    del alone
+    a = F(**kw1)
+    b = F(**kw2)
+    scenario = {"class_used_first": first, "class": F.__name__, "differing_field": seq or "label", "id_alone": id_alone, "id_next_to_a_sibling_with_other_children": b.id}
+    if b.id != id_alone:
+        e.fail("id-not-deterministic:multiple-inheritance", scenario=scenario)
+    if a.id == b.id or NODE_REGISTRY.get(a.id) is not a or NODE_REGISTRY.get(b.id) is not b:
+        e.fail("duplicate-ids-among-registered:multiple-inheritance", scenario=scenario)
+    b.detach_self()
+    a.detach()
+    for n in (a, x) + ((r1,) if seq else ()):
+        if ASTNode.get_any(n.id) is n:
+            scenario.update(still_returned=type(n).__name__)
+            e.fail("detached-node-still-returned:multiple-inheritance", scenario=scenario)
+    if ASTNode.get_any(r2.id) is not r2 or (not seq and ASTNode.get_any(r1.id) is not r1):
+        e.fail("live-node-not-returned", scenario=scenario)
+    e.distinct((first, F.__name__))
+    return scenario
+
+
 CREATE = ["leaf", "parent", "duplicate", "dc_replace", "roundtrip", "roundtrip_after_detach"]
 
 
@@ -563,6 +612,7 @@ def spec(tier: str, seed: int) -> Spec:
     for size in (8,):
         fams.append(Family(f"queries-then-drop-K4-size{size}", make_harness(4, ["leaf"], [size], forced={0: "leaf", 1: "parent", 2: "query", 3: "drop"}), variables=var + "; selector: which read-only library call was made"))
         fams.append(Family(f"queries-then-drop-K5-size{size}", make_harness(5, ["leaf"], [size], forced={0: "leaf", 1: "parent", 2: "query", 3: "drop", 4: "drop"}), variables=var + "; selector: which read-only library call was made"))
+    fams.append(Family("multiple-inheritance", mi_harness, variables="selectors: class of the family used first, class"))
     fams.append(Family("id-determinism-per-field-kind", determinism_harness, variables="selectors: class (non-comparable / non-init / both / slotted / falsy ...), digest size, origin, child, how the predecessor left the registry"))
     Kmax = plan[-1][0]
     return Spec(
